@@ -22,6 +22,34 @@ from contracts import spec_tree  # noqa: E402
 from standin import models as M  # noqa: E402
 
 
+CALL_LIMIT_S = 10
+
+
+class CallTimeout(BaseException):
+    pass
+
+
+class time_limit:
+    """per-call wall-clock limit (SIGALRM): a call on a small model that does not return is reported, not waited for"""
+
+    def __init__(self, seconds):
+        self.seconds = seconds
+
+    def __enter__(self):
+        import signal
+
+        def handler(signum, frame):
+            raise CallTimeout()
+        self.old = signal.signal(signal.SIGALRM, handler)
+        signal.alarm(self.seconds)
+
+    def __exit__(self, *a):
+        import signal
+        signal.alarm(0)
+        signal.signal(signal.SIGALRM, self.old)
+        return False
+
+
 def load_sidecars():
     import glob
     for p in sorted(glob.glob(os.path.join(HERE, 'contracts', 'c[0-9][0-9]*.py'))):
@@ -124,10 +152,29 @@ def check_contract(cls, models_iter, budget, stats, failures, max_fail=5):
             except Exception:
                 st['pre_rejected'] += 1
                 continue
+            # inputs inside a recorded known-finding region: a few are run (so that the finding is observed or reported
+            # stale), the rest are skipped -- they carry no information and may be slow
+            kn_pre = None
+            for n, f in known:
+                try:
+                    if f(**{k: args[k] for k in inspect.signature(f).parameters}):
+                        kn_pre = n[len('known_'):]
+                        break
+                except Exception:
+                    pass
+            if kn_pre is not None:
+                st.setdefault('known_region_inputs', {}).setdefault(kn_pre, 0)
+                st['known_region_inputs'][kn_pre] += 1
+                if st['known_region_inputs'][kn_pre] > 3:
+                    continue
             st['evaluations'] += 1
             fail = None
             try:
-                result = raw(*combo)
+                with time_limit(CALL_LIMIT_S):
+                    result = raw(*combo)
+            except CallTimeout:
+                fail = {'clause': 'noraise', 'exception': f'call did not return within {CALL_LIMIT_S}s on a small model (non-termination?)'}
+                result = None
             except Exception as e:  # noqa: BLE001
                 if type(e).__name__ in allowed:
                     continue
